@@ -216,12 +216,18 @@ E("aotools.turbulence.slopecovariance.create_tomographic_covariance_reconstructo
   lambda r, z: {"n": r.choice([1, 2]), "cond": r.choice([0, 1e-3])}, lambda f, A, S: f(A["c"], S["n"], S["cond"]))
 
 
+class ArgumentContainerModified(Exception):
+    """a list passed as an argument came back with other elements"""
+
+
 def _covmat(f, A, S):
     masks = [A["m1"], A["m2"]]
     nl = int(S.get("layers", 2))
     c = f(2, masks, 4.0, A["diam"][:2], [0, 90000.], A["gs"][:2], A["wl"][:2] * 1e-7, nl, A["alt"][:nl], A["r0s"][:nl], A["L0s"][:nl] + 10., S["threads"])
     m1 = c.make_covariance_matrix().copy()
     r = c.make_tomographic_reconstructor(S["cond"])
+    if len(masks) != 2 or masks[0] is not A["m1"] or masks[1] is not A["m2"]:
+        raise ArgumentContainerModified("pupil_masks")
     return [m1, r]
 
 
